@@ -469,9 +469,17 @@ def check(repo, rep):
     for flag, (grp, key, typ, dflt) in SPEC.items():
         rep.ob('the keyword %r written for %s is one its consumer reads' % (key, flag), key in consumed, cx.where('cmdline_util', kfn), 'cli-consumer[%s]' % key, '%r is read by no function of the package (no d[%r], d.get(%r) or parameter of that name)' % (key, key, key))
     # main wires the three groups into initialize_workers
+    host = mfn
     iw = [n for n in ast.walk(mfn) if isinstance(n, ast.Call) and ast.unparse(n.func).endswith('initialize_workers')]
+    if not iw:
+        # main() delegates the set-up to a helper of the module: the wiring is looked for in the function that makes both calls
+        for f_ in ast.walk(cx.model.mods['cmdline']['tree']):
+            if isinstance(f_, ast.FunctionDef) and f_ is not mfn:
+                c_ = [n for n in ast.walk(f_) if isinstance(n, ast.Call) and ast.unparse(n.func).endswith('initialize_workers')]
+                if c_ and any(isinstance(n, ast.Call) and ast.unparse(n.func).endswith('make_kwargs') for n in ast.walk(f_)):
+                    host, iw = f_, c_
     okw = False
-    mk_vars = {t.id for n in ast.walk(mfn) if isinstance(n, ast.Assign) and isinstance(n.value, ast.Call) and ast.unparse(n.value.func).endswith('make_kwargs') for t in n.targets if isinstance(t, ast.Name)}
+    mk_vars = {t.id for n in ast.walk(host) if isinstance(n, ast.Assign) and isinstance(n.value, ast.Call) and ast.unparse(n.value.func).endswith('make_kwargs') for t in n.targets if isinstance(t, ast.Name)}
     for c in iw:
         stars = [k.value for k in c.keywords if k.arg is None]
         okw = len(stars) == len(groups_fields) and all(isinstance(v, ast.Attribute) and isinstance(v.value, ast.Name) and v.value.id in mk_vars for v in stars) and sorted(v.attr for v in stars) == sorted(groups_fields)
@@ -668,7 +676,12 @@ def check(repo, rep):
             rep.ob('an unknown time directive raises TimeFormatError', exc_name(l) == 'TimeFormatError', where, 'make_duration_formatter:unknown-directive', 'raises %s' % exc_name(l))
             # raised when a % is left after the four replacements
             idx = [e[1] for e in l.effects if e[0] == 'call' and e[1][0] == 'call' and e[1][1][0] == 'attr' and e[1][1][2] in ('index', 'find') and e[1][2] == (('c', '%'),)]
-            rep.ob('the error is raised exactly when a "%" is left after replacing %h %m %s %i', bool(idx), where, 'make_duration_formatter:leftover-test')
+            if idx:
+                rep.ob('the error is raised exactly when a "%" is left after replacing %h %m %s %i', True, where, 'make_duration_formatter:leftover-test')
+            else:
+                # the left-over test is written some other way (partition, `in`, a scan over the pieces): the condition is on a value
+                # the rule does not follow
+                rep.unknown('make_duration_formatter: how the left-over "%" is detected before TimeFormatError is raised was not recognised')
             continue
         if l.outcome != 'return' or l.value[0] not in ('localfunc', 'lambda'):
             continue
@@ -722,6 +735,11 @@ def check(repo, rep):
                 m = re.match(r'^\{(\w+):0(\d)d\}$', fld)
                 if m:
                     names[d_] = (m.group(1), int(m.group(2)))
+            if not reps:
+                # the template is not built by a chain of str.replace calls on the format (a table-driven / piecewise compiler): what each
+                # directive becomes is not followed
+                rep.unknown('make_duration_formatter: how the %%h/%%m/%%s/%%i directives are turned into fields was not recognised (template is %s)' % show(tmpl)[:70])
+                continue
             for d_ in want_rep:
                 width = 3 if d_ == '%i' else 2
                 rep.ob('%s is replaced by a zero-padded %d-digit field' % (d_, width), d_ in names and names[d_][1] == width, cx.where('util', ffn), 'make_duration_formatter[%s]:field' % d_, 'replacement %r' % reps.get(d_))
